@@ -63,6 +63,18 @@ func c14Gen(r *Rand, tier string) interface{} {
 				t.Wait = append(t.Wait, fmt.Sprintf("t%d", j))
 			}
 		}
+		// the order of a wait list is free and a name may be given twice
+		if len(t.Wait) > 1 && r.Chance(1, 2) {
+			for k := len(t.Wait) - 1; k > 0; k-- {
+				j := r.Intn(k + 1)
+				t.Wait[k], t.Wait[j] = t.Wait[j], t.Wait[k]
+			}
+		}
+		if len(t.Wait) > 0 && r.Chance(1, 4) {
+			d := t.Wait[r.Intn(len(t.Wait))]
+			at := r.Intn(len(t.Wait) + 1)
+			t.Wait = append(t.Wait[:at], append([]string{d}, t.Wait[at:]...)...)
+		}
 		if r.Chance(1, 12) {
 			t.Wait = append(t.Wait, "ghost")
 		}
